@@ -89,11 +89,50 @@ LoopTicks(song) ==
 (* playback state and processEvents() *)
 UsTick(song, tempo) == tempo \div song.div
 PPos0(rows) == [tr |-> [ti \in DOMAIN rows |-> [pos |-> 1, delay |-> 0, st |-> 0]], wait |-> 0, abs |-> 0]
+
+\* song time of a row as buildTimeLine computes it: an End-of-Track alone in its row carries the time of the row before
+\* (the delay in front of it was dropped)
+RowTimeUs(song, trows, ri) ==
+  IF ri > 1 /\ trows[ri].events = <<EotEv>> /\ trows[ri - 1].delay = 0 /\ trows[ri].abs > trows[ri - 1].abs
+  THEN TimeOf(song, trows[ri - 1].abs) ELSE TimeOf(song, trows[ri].abs)
+\* m_loopStartTime / m_loopEndTime: time of the last row (tracks in order) standing at the loop tick; -1 when unset
+LoopTimeUs(song, rows, tick, inv) ==
+  LET c == FlattenSeq([ti \in DOMAIN rows |-> SelectSeq([ri \in DOMAIN rows[ti] |-> [a |-> rows[ti][ri].abs, t |-> RowTimeUs(song, rows[ti], ri)]], LAMBDA x : x.a = tick)])
+  IN IF inv \/ c = <<>> THEN -1 ELSE c[Len(c)].t
+
+(* the load-time scan of buildTimeLine() for the loop begin position: like processEvents, but a track found at its end
+   does not stop the pass, nothing is delivered, and the position keeps wait = 0 *)
+RECURSIVE ScanTracks(_, _, _, _, _)
+ScanTracks(P, rows, ti, tempo, caught) ==
+  IF ti > Len(rows) THEN [p |-> P, tempo |-> tempo, caught |-> caught]
+  ELSE LET t == P.tr[ti] IN
+    IF t.st >= 0 /\ t.delay <= 0
+    THEN IF t.pos > Len(rows[ti]) THEN ScanTracks([P EXCEPT !.tr[ti].st = -1], rows, ti + 1, tempo, caught)
+         ELSE LET evs == rows[ti][t.pos].events
+                  ls == FirstIdx(evs, LAMBDA e : e.k \in {"loopstart", "cc111"})
+                  seen == SelectSeq(SubSeq(evs, 1, IF ls = 0 THEN Len(evs) ELSE ls), LAMBDA e : e.k = "tempo")
+                  P1 == [P EXCEPT !.tr[ti].delay = @ + rows[ti][t.pos].delay, !.tr[ti].pos = @ + 1]
+              IN ScanTracks(P1, rows, ti + 1, IF seen = <<>> THEN tempo ELSE seen[Len(seen)].us, caught \/ ls # 0)
+    ELSE ScanTracks(P, rows, ti + 1, tempo, caught)
+RECURSIVE ScanLoop(_, _, _, _, _)
+ScanLoop(P, tempo, rows, lsTime, fuel) ==
+  LET r == ScanTracks(P, rows, 1, tempo, FALSE)
+      act == { ti \in DOMAIN rows : r.p.tr[ti].st >= 0 }
+      sd == IF act = {} THEN 0 ELSE CHOOSE d \in { r.p.tr[ti].delay : ti \in act } : \A ti \in act : d <= r.p.tr[ti].delay
+      P1 == [r.p EXCEPT !.tr = [ti \in DOMAIN rows |-> [r.p.tr[ti] EXCEPT !.delay = @ - sd]]]
+  IN IF r.caught THEN [lbp |-> [P EXCEPT !.abs = lsTime], lbtempo |-> tempo]
+     ELSE IF act = {} \/ fuel = 0 THEN [lbp |-> PPos0(rows), lbtempo |-> DefaultTempoUs]
+     ELSE ScanLoop(P1, r.tempo, rows, lsTime, fuel - 1)
+
 Play0(song, rows, loopEn, loopN) ==
-  LET n == IF loopN >= 1 THEN loopN - 1 ELSE loopN IN
+  LET n == IF loopN >= 1 THEN loopN - 1 ELSE loopN
+      lt == LoopTicks(song)
+      sc == IF lt.invalid THEN [lbp |-> PPos0(rows), lbtempo |-> DefaultTempoUs]
+            ELSE ScanLoop(PPos0(rows), DefaultTempoUs, rows, LoopTimeUs(song, rows, lt.st, FALSE), 200)
+  IN
   [p |-> PPos0(rows), tempo |-> DefaultTempoUs, atEnd |-> FALSE, cStart |-> FALSE, cEnd |-> FALSE,
-   left |-> n, count |-> n, lbp |-> PPos0(rows), lbtempo |-> DefaultTempoUs, lbabs |-> 0, lbset |-> FALSE,
-   log |-> <<>>, loopEn |-> loopEn, inv |-> LoopTicks(song).invalid]
+   left |-> n, count |-> n, lbp |-> sc.lbp, lbtempo |-> sc.lbtempo,
+   log |-> <<>>, loopEn |-> loopEn, inv |-> lt.invalid, seek |-> FALSE, broken |-> FALSE]
 
 Entry(e, t) == LET im == IF e.k = "begin" THEN <<255, 1, 0, <<>>>> ELSE IF e.k = "eot" THEN <<255, 47, 0, <<>>>> ELSE Img(e) IN
                <<"e", t, im[1], im[2], im[3], im[4], 0>>
@@ -102,6 +141,7 @@ RECURSIVE RowEvents(_, _, _, _, _, _)
 RowEvents(S, song, rows, ti, i, acc) ==
   LET row == rows[ti][S.p.tr[ti].pos] IN
   IF i > Len(row.events) THEN [s |-> S, jump |-> FALSE, starts |-> acc]
+  ELSE IF S.seek /\ IsOn(row.events[i]) THEN RowEvents(S, song, rows, ti, i + 1, acc)    \* note-ons are not even shown to the hook while seeking
   ELSE LET e == row.events[i]
            S1 == [S EXCEPT !.log = Append(@, Entry(e, S.p.abs))]
            S2 == CASE e.k = "eot"   -> [S1 EXCEPT !.p.tr[ti].st = -1]
@@ -135,19 +175,17 @@ ProcessEvents(S, song, rows) ==
       sd == IF found THEN (CHOOSE d \in { S1.p.tr[ti].delay : ti \in act } : \A ti \in act : d <= S1.p.tr[ti].delay) ELSE 0
       S2 == [S1 EXCEPT !.p.tr = [ti \in DOMAIN rows |-> [S1.p.tr[ti] EXCEPT !.delay = @ - sd]],
                        !.p.wait = @ + sd * UsTick(song, S1.tempo)]
-      S3 == IF r.starts > 0 /\ ~S2.lbset THEN [S2 EXCEPT !.lbp = rowBegin, !.lbtempo = rowTempo, !.lbabs = rowBegin.abs, !.lbset = TRUE] ELSE S2
+      S3 == IF r.starts > 0 /\ S2.lbp.abs <= 0 THEN [S2 EXCEPT !.lbp = rowBegin, !.lbtempo = rowTempo] ELSE S2
   IN IF ~found \/ S3.cEnd
      THEN LET S4 == [S3 EXCEPT !.log = Append(@, <<"h", S3.p.abs, 2, 0>>), !.cEnd = FALSE] IN
           IF ~S4.loopEn \/ (~found /\ S4.count >= 0 /\ S4.left < 1)
           THEN [S4 EXCEPT !.atEnd = TRUE, !.p.wait = @ + 1000000]
+          ELSE IF S4.broken       \* a seek at/after the loop end: the next jump goes to the very beginning and is not counted
+               THEN [S4 EXCEPT !.p = PPos0(rows), !.tempo = DefaultTempoUs, !.broken = FALSE]
           ELSE IF S4.count < 0 \/ S4.left >= 1
-               THEN [S4 EXCEPT !.p = [S4.lbp EXCEPT !.abs = S4.lbabs], !.tempo = S4.lbtempo, !.left = IF S4.count >= 1 THEN @ - 1 ELSE @]
+               THEN [S4 EXCEPT !.p = S4.lbp, !.tempo = S4.lbtempo, !.left = IF S4.count >= 1 THEN @ - 1 ELSE @]
                ELSE S4
      ELSE S3
-
-\* loop begin found at load time by the scan of buildTimeLine(): position of the row holding the loopStart marker
-\* (the model obtains it lazily at the first pass, like processEvents does when the scan found nothing; for valid loops
-\*  both give the same position, the scan additionally fixes absTimePosition = loop start time)
 
 \* exact stepping: Tick(wait) until the end; fuel bounds the number of processEvents calls
 RECURSIVE Drain(_, _, _, _)
@@ -163,8 +201,34 @@ Run(S, song, rows, fuel, calls) ==
            c  == << step, d.s.p.abs, d.s.p.wait, IF d.s.atEnd THEN 1 ELSE 0, d.s.log, S.p.abs >>
        IN IF d.s.atEnd THEN [calls |-> Append(calls, c), atend |-> 1, trunc |-> 0]
           ELSE Run(d.s, song, rows, d.fuel, Append(calls, c))
+Rows(song) == [ti \in DOMAIN song.tracks |-> TrackRows(song, ti)]
 PlayModel(song, loopEn, loopN) ==
-  LET rows == [ti \in DOMAIN song.tracks |-> TrackRows(song, ti)]
+  LET rows == Rows(song)
       r == Run(Play0(song, rows, loopEn, loopN), song, rows, 400, <<>>)
+  IN [e |-> "PlayTicks", steps |-> <<>>, calls |-> r.calls, atend |-> r.atend, trunc |-> r.trunc]
+
+---------------------------------------------------------------------------
+(* seek(seconds, granularity): rewind, loops off, ONE step of the full distance, then processEvents(isSeek) while the
+   wait is within half a granule; a seek that reaches the end, or beyond the song length, rewinds.
+   gh = half the granularity in whole microseconds (the waits are whole microseconds).  song.len = m_fullSongTimeLength. *)
+RECURSIVE DrainSeek(_, _, _, _, _)
+DrainSeek(S, song, rows, gh, fuel) ==
+  IF S.atEnd \/ fuel = 0 \/ S.p.wait > gh THEN S
+  ELSE DrainSeek(ProcessEvents(S, song, rows), song, rows, gh, fuel - 1)
+SeekModel(song, loopEn, loopN, target, gh) ==
+  LET rows == Rows(song)
+      base == Play0(song, rows, loopEn, loopN)
+      le == LET lt == LoopTicks(song) IN LoopTimeUs(song, rows, lt.et, lt.invalid)
+      S0 == [base EXCEPT !.loopEn = FALSE, !.seek = TRUE, !.broken = (target >= le), !.p.wait = -target, !.p.abs = target]
+      d  == DrainSeek(S0, song, rows, gh, 400)
+  IN IF target < 0 THEN [s |-> base, log |-> <<>>, tell |-> -1, rows |-> rows]            \* refused: nothing moves (tell -1 = unchanged)
+     ELSE IF target > song.len THEN [s |-> base, log |-> <<>>, tell |-> 0, rows |-> rows]
+     ELSE IF target = 0 THEN [s |-> [base EXCEPT !.broken = (0 >= le)], log |-> <<>>, tell |-> 0, rows |-> rows]
+     ELSE IF d.atEnd THEN [s |-> base, log |-> d.log, tell |-> 0, rows |-> rows]
+     ELSE [s |-> [d EXCEPT !.loopEn = loopEn, !.seek = FALSE, !.p.wait = Max(0, @), !.log = <<>>], log |-> d.log, tell |-> target, rows |-> rows]
+\* playback (exact stepping) continued from the state a seek left
+PlayAfterSeekModel(song, loopEn, loopN, target, gh) ==
+  LET m == SeekModel(song, loopEn, loopN, target, gh)
+      r == Run(m.s, song, m.rows, 400, <<>>)
   IN [e |-> "PlayTicks", steps |-> <<>>, calls |-> r.calls, atend |-> r.atend, trunc |-> r.trunc]
 =============================================================================
